@@ -167,6 +167,9 @@ func (app *App) newDBCluster() error {
 func (app *App) checkHAReplicasRunning(local *mysql.Node) (replicasRunning bool, hasUnreachReplicas bool) {
 	checker := func(host string) error {
 		node := app.cluster.Get(host)
+		if node == nil {
+			return fmt.Errorf("host %s is not a registered cluster host", host)
+		}
 		status, err := node.ReplicaStatusWithTimeout(app.config.DBLostCheckTimeout, app.config.ReplicationChannel)
 		if err != nil {
 			return err
@@ -846,6 +849,9 @@ Typically it's master + list of alive, replicating, not split-brained replicas
 */
 func (app *App) calcActiveNodes(clusterState, clusterStateDcs map[string]*nodestate.NodeState, oldActiveNodes []string, master string) (activeNodes []string, err error) {
 	masterNode := app.cluster.Get(master)
+	if masterNode == nil {
+		return nil, fmt.Errorf("master %s is not a registered cluster host", master)
+	}
 	hostsOnRecovery, err := app.GetHostsOnRecovery()
 	if err != nil {
 		app.logger.Error().Err(err).Msg("failed to get hosts on recovery")
@@ -918,6 +924,10 @@ func (app *App) calcActiveNodes(clusterState, clusterStateDcs map[string]*nodest
 
 func (app *App) calcActiveNodesChanges(clusterState map[string]*nodestate.NodeState, activeNodes []string, oldActiveNodes []string, master string) (becomeActive, becomeInactive, becomeDataLag []string, err error) {
 	masterNode := app.cluster.Get(master)
+	if masterNode == nil {
+		err = fmt.Errorf("master %s is not a registered cluster host", master)
+		return
+	}
 	var syncReplicas []string
 	var deadReplicas []string
 
@@ -1010,6 +1020,9 @@ func (app *App) updateActiveNodes(clusterState, clusterStateDcs map[string]*node
 		// disable semi-sync on hosts
 		for host, state := range clusterState {
 			node := app.cluster.Get(host)
+			if node == nil {
+				continue
+			}
 			app.disableSemiSyncIfNonNeeded(node, state)
 		}
 		// then update DCS
@@ -1093,6 +1106,9 @@ func (app *App) updateActiveNodes(clusterState, clusterStateDcs map[string]*node
 		}
 
 		host := app.cluster.Get(hostname)
+		if host == nil {
+			continue
+		}
 		err = host.SetDefaultReplicationSettings(masterNode)
 		if err != nil {
 			app.logger.Error().Err(err).Msgf("failed to set default replication settings %s", hostname)
@@ -1182,6 +1198,9 @@ func (app *App) disableSemiSyncOnSlaves(becomeInactive, becomeDataLag []string) 
 		}
 
 		node := app.cluster.Get(host)
+		if node == nil {
+			continue
+		}
 
 		err = app.optController.Enable(node)
 		if err != nil {
@@ -1360,6 +1379,9 @@ func (app *App) performSwitchover(clusterState map[string]*nodestate.NodeState, 
 	app.logger.Info().Msg("switchover: phase 2: stop replication")
 
 	oldMasterNode := app.cluster.Get(oldMaster)
+	if oldMasterNode == nil || clusterState[oldMaster] == nil {
+		return fmt.Errorf("switchover: old master %s is not a registered cluster host any more", oldMaster)
+	}
 	if clusterState[oldMaster].PingOk {
 		err := app.externalReplication.Stop(oldMasterNode)
 		if err != nil {
@@ -1602,6 +1624,9 @@ func (app *App) SetDefaultReplicationSettingsForNode(node *mysql.Node) error {
 		return err
 	}
 	master := app.cluster.Get(masterFqdn)
+	if master == nil {
+		return fmt.Errorf("master %s is not a registered cluster host", masterFqdn)
+	}
 	return node.SetDefaultReplicationSettings(master)
 }
 
@@ -1662,6 +1687,9 @@ func (app *App) repairMasterOfflineMode(host string, state *nodestate.NodeState)
 			return
 		}
 		node := app.cluster.Get(host)
+		if node == nil {
+			return
+		}
 		err := node.SetOnline()
 		if err != nil {
 			app.logger.Error().Err(err).Msgf("repair: failed to set master %s online", host)
@@ -1679,6 +1707,9 @@ func (app *App) repairSlaveOfflineMode(host string, state *nodestate.NodeState, 
 
 	replPermBroken, _ := state.IsReplicationPermanentlyBroken()
 	node := app.cluster.Get(host)
+	if node == nil {
+		return
+	}
 	// offline => online, if lag has decreased
 	if state.IsOffline && *state.SlaveState.ReplicationLag <= app.config.OfflineModeDisableLag.Seconds() {
 		if replPermBroken {
@@ -2192,6 +2223,9 @@ func (app *App) performChangeMaster(host, master string) error {
 		panic(fmt.Sprintf("impossible to change master to itself: %s", host))
 	}
 	node := app.cluster.Get(host)
+	if node == nil {
+		return fmt.Errorf("host %s is not a registered cluster host", host)
+	}
 	err := node.StopSlave()
 	if err != nil {
 		return fmt.Errorf("failed to stop slave on host %s: %w", host, err)
